@@ -38,6 +38,7 @@ TraceFailedCall  == IsEv("OpError") /\ FailedCall(E.t)
 TraceCommitStart == IsEv("CommitStart") /\ CommitStart(E.t)
 TraceCommitEnd   == IsEv("CommitEnd") /\ CommitEnd(E.t, E.ok)
 TraceRollback    == IsEv("Rollback") /\ Rollback(E.t)
+TraceScribble    == IsEv("Scribble") /\ Scribble(E.t)
 TraceCrash       == IsEv("Crash") /\ Crash(E.t)
 TraceLogs        == IsEv("Logs") /\ Logs(E.n)
 TraceRemoveStore == IsEv("RemoveStore") /\ RemoveStore(E.s)
@@ -48,7 +49,7 @@ TraceLin         == \E t \in DOMAIN tx : Lin(t) /\ UNCHANGED l
 
 TraceNext == \/ TraceReset \/ TraceBegin \/ TraceArm \/ TraceNewStore \/ TraceOpenStore \/ TraceOp
              \/ TraceCommitStart \/ TraceCommitEnd \/ TraceRollback \/ TraceRemoveStore \/ TraceObserve
-             \/ TraceLin \/ TraceFailedCall \/ TraceNewStoreBegin \/ TraceCrash \/ TraceLogs
+             \/ TraceLin \/ TraceFailedCall \/ TraceNewStoreBegin \/ TraceCrash \/ TraceLogs \/ TraceScribble
 
 TraceSpec == TraceInit /\ [][TraceNext]_tvars
 
